@@ -42,6 +42,7 @@ global_const("ABSENT", ("sentinel", 7))
 global_const("_text", ("contract", "lib:textutil.text"))
 global_const("ExceptionUtil", ("module", "ExceptionUtil"))
 contract("lib:textutil.text", trusted=True, pos_params=["value"], pure=True, result="str",
+         ensures={"text-of-a-string-is-that-string": "implies(has_kind(value, 'str'), result == value)"},
          doc="behave.textutil.text(): conversion to text (A-noeffect)")
 
 # the element a failing before_tag/after_tag hook is attributed to: innermost of scenario, rule, feature
